@@ -369,4 +369,10 @@ def generate(ctx):
         yield "partitions_divs", {"divs": divs, "sel": sel}
     for _ in range(ctx.n(200, 3300)):
         nops = rng.choice([0, 1, 1, 1, 2, 2, 3])
-        yield "pipeline", {"src": _rand_source(rng), "ops": [_rand_op(rng, i == 0) for i in range(nops)]}
+        src = _rand_source(rng)
+        ops = [_rand_op(rng, i == 0) for i in range(nops)]
+        if src["kind"] == "presorted_w" and rng.random() < 0.85:
+            # the interesting path: set_index on the already ordered column (must shuffle iff a run of equal keys
+            # crosses a partition boundary), then at most one more step that relies on the published divisions
+            ops = [["set_index", None]] + [o for o in ops[:1] if o[0] in ("loc_slice", "loc_list", "loc_elem", "partitions", "repartition_n", "assign")]
+        yield "pipeline", {"src": src, "ops": ops}
